@@ -45,6 +45,7 @@ import SecsModel.Proofs.ParserNat
 import SecsModel.Proofs.LexConcat
 import SecsModel.Proofs.LexBlankConcat
 import SecsModel.Generated.Facts
+import SecsModel.Proofs.NumCase
 namespace Secs.C08
 open Secs Secs.Lex Secs.Sml
 
@@ -351,5 +352,22 @@ example : (lexAll [] (str "S1F1 W // voil\xc3\xa0\n.")).map (·.kind) = [.stream
   decide +kernel
 example : ((lexAll [] (str "S1F1 <A \"x\"> // 100% \x0b\n.")).filter (·.kind != .comment)).map (·.kind)
     = ((lexAll [] (str "S1F1 <A \"x\">\n.")).map (·.kind)) := by decide +kernel
+
+
+/-! ### letter case inside integer literals -/
+
+/-- **the value of an integer literal does not depend on letter case**: two spellings that differ
+only in the case of letters (`0x1f`, `0X1F`, `0X1f`; `0b101`, `0B101`; `0o17`, `0O17`) are read by
+`ParseInt` and `ParseUint` to the same value with the same error, for every base argument and
+every width - the reading of I*, U*, B items and of character codes in A items. (That the lexer
+takes the same characters as one number token in either case is decided by the metamorphic oracle.) -/
+theorem integer_literal_case (s1 s2 : Bytes) (h : s1.map Strconv.lowerB = s2.map Strconv.lowerB) (base bits : Nat) :
+    Strconv.parseInt s1 base bits = Strconv.parseInt s2 base bits ∧
+    Strconv.parseUint s1 base bits = Strconv.parseUint s2 base bits :=
+  ⟨Strconv.parseInt_same_lower s1 s2 h base bits, Strconv.parseUint_same_lower s1 s2 h base bits⟩
+
+/-- non-vacuity (a test): `0X1F` and `0x1f` -/
+example : (str "0X1F").map Strconv.lowerB = (str "0x1f").map Strconv.lowerB ∧
+    (Strconv.parseUint (str "0X1F") 0 8).val = 31 := by decide +kernel
 
 end Secs.C08
